@@ -408,6 +408,12 @@ structure Flags where
       `get_process_tensor`, `update_process_tensor`, `compute_caps`, `set_*_tensor`) -/
   exportUnwind : List UnwindStep
   ptTempoUnwind : List UnwindStep
+  /-- every assignment to `attrs["writing"]` in oqupy/process_tensor.py:
+      (enclosing function, constant assigned) -/
+  writingAssignments : List (String × Bool)
+  /-- the values `FileProcessTensor.compute_caps()` assigns to `attrs["writing"]` after its
+      last cap write, in order (the only attribute writes it may contain) -/
+  computeCapsTail : List Bool
 
 /-! ## 5. Process tensors in memory -/
 
@@ -881,5 +887,24 @@ def excState (F : Flags) (removeable : Bool) (unwind : List UnwindStep) (d0 : Di
     (trace : List Op) (nCreate k : Nat) : Disk :=
   let d := replay d0 (trace.take k)
   if nCreate ≤ k then unwindDisk F removeable d unwind else d
+
+/-! ## 11. `compute_caps()` of a file-backed process tensor inside the writer's trace -/
+
+/-- what `compute_caps()` writes to the attributes once its caps are stored -/
+def capsTail (F : Flags) (w : W) : W := F.computeCapsTail.foldl (fun w b => w.emit (.setWriting b)) w
+
+/-- `segs`: the `set_*` calls up to and including each `compute_caps()` call (its cap writes are
+    the last calls of the segment); `rest`: calls after the last `compute_caps()` -/
+def runSegs (F : Flags) (w : W) : List (List Cmd) → W
+  | [] => w
+  | seg :: r => runSegs F (capsTail F (runCmds w seg)) r
+
+def writerSegW (F : Flags) (env : Env) (d : Disk) (mode : String) (m : Meta)
+    (segs : List (List Cmd)) (rest : List Cmd) (close : Bool) : Except OpenErr W :=
+  match createFile F env d mode m with
+  | .ok w =>
+    let w := runCmds (runSegs F w segs) rest
+    .ok (if close then closeW F true w else w)
+  | .error e => .error e
 
 end OQuPyVerif.PTFile
